@@ -169,12 +169,12 @@ pub fn check_text(ctx: &mut Ctx, text: &str, origin: &str) -> Result<(), Fail> {
 }
 
 // ----------------------------------------------------------------- generators
-pub const DICT: [&str; 70] = [
+pub const DICT: [&str; 74] = [
     "a", "b", "r0", "WHITESPACE", "COMMENT", "ANY", "SOI", "EOI", "PUSH", "PUSH_LITERAL", "PEEK", "PEEK_ALL", "POP", "POP_ALL", "DROP", "ASCII_DIGIT", "LETTER", "=", "{", "}", "(", ")", "[", "]",
     "_", "@", "$", "!", "&", "~", "|", "?", "*", "+", ",", "..", "^", "#t", "#", "-", "0", "1", "2", "3", "00", "2147483647", "2147483648", "4294967295", "4294967296", "99999999999999999999", "-1",
-    "-2147483649", "\"a\"", "\"\"", "\"\\n\"", "\"\\x41\"", "\"\\xff\"", "\"\\u{41}\"", "\"\\u{D800}\"", "\"\\u{110000}\"", "\"\\u{1}\"", "\"\\q\"", "\"", "'a'", "'\\''", "'", "'ab'", "//", "/*", "é",
+    "-2147483649", "\"a\"", "\"\"", "\"\\n\"", "\"\\x41\"", "\"\\xff\"", "\"\\u{41}\"", "\"\\u{D800}\"", "\"\\u{110000}\"", "\"\\u{1}\"", "\"\\q\"", "\"", "'a'", "'\\''", "'", "'ab'", "//", "/*", "é", "\"日本語\"", "\t", "'€'", "\"é\t\"",
 ];
-pub const GAPS: [&str; 6] = ["", " ", " ", "\n", " // c\n", " /* c */ "];
+pub const GAPS: [&str; 8] = ["", " ", " ", "\n", " // c\n", " /* c */ ", "\t", " /* é日 */\t"];
 
 fn tokenise(text: &str) -> Vec<String> {
     // rough lexer: identifiers/numbers, strings, char literals, single punctuation, whitespace runs
